@@ -136,6 +136,8 @@
 //!
 
 mod orders;
+#[cfg(pricelevel_verif)]
+pub mod verif_hooks;
 mod price_level;
 mod utils;
 
